@@ -452,6 +452,15 @@ class Executor(Engine):
                 new = V(bt, z3.Store(base.t, x, z3.Select(base.t, x) + 1))
             elif meth == 'extend' and isinstance(args[0].ty, TBag):
                 new = self.bag_union(base, args[0], ctx)
+        elif isinstance(base.ty, TDict):
+            dt = base.ty
+            if meth == 'setdefault' and len(args) == 2:
+                # d.setdefault(k, v) as a statement: d[k] = v unless k is already a key
+                k_ = coerce(args[0], dt.k).t
+                v_ = coerce(args[1], dt.v).t
+                has_ = z3.Select(dt.has(base.t), k_)
+                new = V(dt, dt.mk(z3.Store(dt.has(base.t), k_, True),
+                                  z3.If(has_, dt.at(base.t), z3.Store(dt.at(base.t), k_, v_))))
         elif isinstance(base.ty, TSet):
             stt = base.ty
             if meth == 'add':
